@@ -62,6 +62,9 @@ def run(ctx):
     f4 = [F.random_program(rnd, ctx.tier, depth=5 if quick else 6, max_items=30 if quick else 40, onerror=True, raising=True, width=4)
           for _ in range(n4)]
     run_traces(ctx, "C01F4", f4, NAMES, dev=dev, invariants=INVS, runs=2 if quick else 3)
+    # what one template leaves behind (rejected templates, templates with options of their own) does not reach another
+    from .. import isolation
+    ctx.replays += isolation.run(ctx, "statements")
     ctx.exhaustive = True
     ctx.rule = ("programs: F1 = every subset of {define,condition,repeat,case(+switch parent),content|replace,"
                 "omit-tag,attributes} on one element with one child (192 programs); F2 = nests/sibling pairs "
